@@ -25,6 +25,8 @@ def run(c):
                    name="dispatch %s, message sequences over 11 representative types" % role)
     c.mc("Transport", cfg_text(constants=consts("server", False, "<-FewTypes"), invariants=["C12"]),
          expect="C12", name="sensitivity: MSG_NAMES[ptype] raises for unnamed types")
+    c.mc("Transport", cfg_text(constants=consts("client", True, "<-FewTypes"), invariants=["C12"], spec="SpecQuietInKex"),
+         expect="C12", name="sensitivity: fallback branch silent during the end's own key exchange")
 
     rnd = random.Random(c.seed)
     batch = {"client": [], "server": []}
@@ -53,6 +55,20 @@ def run(c):
                        sample=ev if t in (3, 200) and not payload else None)
         batch[role].append({"events": events})
         p.close()
+        # the same while the victim's own re-exchange is under way (its KEXINIT is out, the peer's has not arrived)
+        unh = [t for t in range(256) if t not in (1, 2, 4)]
+        rnd.shuffle(unh)
+        groups = [unh[i:i + 12] for i in range(0, len(unh), 12)]
+        for g in (groups[:2] if c.quick else groups):
+            p = tr.Probe(role, "authed")
+            g = [t for t in g if not p.live_handled(t)] + [3]
+            evs = p.rekey_window(g)
+            if not evs or not evs[0]["in_kex"]:
+                raise Machinery("driver: victim was not inside its own key exchange during the window probe")
+            batch[role].append({"events": evs})
+            for ev in evs:
+                c.case(key=(role, ev["t"], "rekey-window"), sample=ev if ev["t"] == g[0] else None)
+            p.close()
     for role in ("client", "server"):
         res, _ = c.trace("Transport_Trace", batch[role],
                          cfg_text(spec="TSpec", constants=consts(role, True), invariants=["Report"]))
@@ -63,10 +79,10 @@ def run(c):
         def describe(tid, clause, row, role=role):
             ev = batch[role][tid - 1]["events"][row[2] - 1]
             named = "named" if ev["t"] in MSG_NAMES else "unnamed"
-            key = "%s:%s:%s" % (clause, role, "type3" if ev["t"] == 3 else named)
+            key = "%s:%s:%s%s" % (clause, role, "type3" if ev["t"] == 3 else named, ":rekey-window" if ev.get("in_kex") else "")
             return key, "%s: %s victim, type %d (%s, payload %d bytes): reply %r, active %r, traffic continues %r" % (
                 clause, role, ev["t"], named, ev["plen"], ev["reply"], ev["active"], ev["continues"]), ev
         c.verdicts(res["VERDICT"], describe)
-    c.rule = "every type number 0..255 that has no handler in the victim's live tables (plus UNIMPLEMENTED itself), empty and random payloads, client and server victim, authenticated session with an open channel; distinct = (role, type, payload class)"
+    c.rule = "every type number 0..255 that has no handler in the victim's live tables (plus UNIMPLEMENTED itself), empty and random payloads, client and server victim, authenticated session with an open channel, idle and inside the victim's own re-exchange window; distinct = (role, type, payload class / window)"
     c.extra["exhaustive"] = True
     c.assumptions = ["'the session keeps working' = the transport is active and a byte sent on the open channel arrives afterwards"]
